@@ -20,7 +20,7 @@ ID = "C03"
 LEVEL = "exploration"
 RULE = ("(a) exhaustive: every condition tree with <= N connective nodes (N=2 quick, 3 thorough; the trees already contain "
         "negations at every depth) over C01's 6-leaf alphabet, wrapped in 1 and in 2 further negations, on the "
-        "truth-table-complete 32-object domain; (b) random: 1-3 variables, depth<=4, negation probability raised to "
+        "truth-table-complete 32-object domain, and the same for C02's six two-variable leaves (joins) on its fixed 3x4 world; (b) random: 1-3 variables, depth<=4, negation probability raised to "
         "0.35 per node so leaves sit under 0-4 negations, all six comparison operators, contains/in_ both directions, "
         "boolean calls and attributes, both predicate kinds, HasType, root wrapped in 1-3 negations spelled not_ or ~. "
         "All variables selected. Non-trivial: both c and not c have at least one satisfying assignment.")
@@ -50,6 +50,7 @@ def plan(tier, seed):
     specs = [{"kind": "exh", "size": SIZES[tier], "stride": nsh, "offset": i} for i in range(nsh)]
     n = 220 if tier == "quick" else 2500
     specs += [{"kind": "rand", "n": n, "sub": i} for i in range(nsh)]
+    specs += [{"kind": "exh2", "size": SIZES[tier], "stride": nsh, "offset": i} for i in range(nsh)]
     return specs
 
 
@@ -61,6 +62,12 @@ def floors(tier):
 
 
 def cases(spec, ctx):
+    if spec["kind"] == "exh2":
+        from . import c02
+        for i, tree in enumerate(C.enumerate_trees(c02.LEAVES2, spec["size"])):
+            if i % spec["stride"] == spec["offset"]:
+                yield {"k": "exh2", "world": c02.W2, "kinds": ["P", "Q"], "cond": tree, "sel": [0, 1], "wrap": ["not", "~"]}
+        return
     if spec["kind"] == "exh":
         for i, tree in enumerate(C.enumerate_trees(c01.LEAVES, spec["size"])):
             if i % spec["stride"] == spec["offset"]:
